@@ -37,14 +37,14 @@ def log(*a):
 
 
 # ----------------------------------------------------------------------------- running workers
-def run_chunk(exe, backend, variant, scenario, base, first, count, opts, samples=2, timeout=3600, env=None):
+def run_chunk(exe, backend, variant, scenario, base, first, count, opts, samples=2, timeout=3600, env=None, wrapper=None):
     """Runs `count` seeds in one worker process; restarts after a worker death.
     Returns (records, deaths) where deaths = [(seed, rc, stderr_tail)]"""
     records, deaths = [], []
     i = first
     end = first + count
     while i < end:
-        cmd = [exe, "run", "--scenario", scenario, "--seed-base", str(base), "--first", str(i), "--count", str(end - i),
+        cmd = list(wrapper or []) + [exe, "run", "--scenario", scenario, "--seed-base", str(base), "--first", str(i), "--count", str(end - i),
                "--backend", backend, "--variant", variant, "--samples", str(samples)]
         for k, v in sorted(opts.items()):
             cmd += ["--opt", "%s=%s" % (k, v)]
@@ -73,6 +73,11 @@ def run_chunk(exe, backend, variant, scenario, base, first, count, opts, samples
                 finished = True
             elif line.startswith("RESTART"):
                 restart = True
+        if finished and rc == 88 and wrapper:
+            # valgrind reported errors (its exit code) although the worker completed: attribute to the last run of this chunk
+            deaths.append({"seed": records[-1]["seed"] if records else None, "index": end - 1, "rc": rc, "stderr": err[-6000:], "exe": exe, "backend": backend,
+                           "variant": variant, "scenario": scenario, "opts": dict(opts), "base": base})
+            break
         if finished:
             break
         if restart:   # the worker asked for a fresh process (e.g. after a leak report); nothing died
@@ -102,7 +107,7 @@ def run_batch(exes, batch, base_seed, workers):
             if n <= 0:
                 continue
             jobs.append(ex.submit(run_chunk, exe, batch["backend"], batch["variant"], batch["scenario"], base_seed, first, n,
-                                  batch.get("opts", {}), 2, batch.get("timeout", 3600), env))
+                                  batch.get("opts", {}), 2, batch.get("timeout", 3600), env, batch.get("wrapper")))
         recs, deaths = [], []
         for j in jobs:
             r, d = j.result()
@@ -129,12 +134,12 @@ def run_batches(exes, batches, base_seed, total_workers=NCPU):
 
 
 # ----------------------------------------------------------------------------- replay / gate / minimise
-def run_plan(exe, plan_text, backend, variant, timeout=600):
+def run_plan(exe, plan_text, backend, variant, timeout=600, wrapper=None):
     with tempfile.NamedTemporaryFile("w", suffix=".plan", delete=False, dir="/tmp") as fh:
         fh.write(plan_text)
         path = fh.name
     try:
-        p = subprocess.run([exe, "replay", "--plan", path, "--backend", backend, "--variant", variant], stdout=subprocess.PIPE,
+        p = subprocess.run(list(wrapper or VALGRIND_IF(variant)) + [exe, "replay", "--plan", path, "--backend", backend, "--variant", variant], stdout=subprocess.PIPE,
                            stderr=subprocess.PIPE, timeout=timeout)
         out = p.stdout.decode(errors="replace")
         rec = None
@@ -151,6 +156,13 @@ def run_plan(exe, plan_text, backend, variant, timeout=600):
         os.unlink(path)
 
 
+VALGRIND = ["valgrind", "-q", "--error-exitcode=88", "--leak-check=no", "--num-callers=12"]
+
+
+def VALGRIND_IF(variant):
+    return VALGRIND if variant == "hsw" else []
+
+
 def classify_death(rc, stderr):
     """violation class of a worker death (sanitizer report, crash)"""
     m = re.search(r"ERROR: AddressSanitizer: ([a-zA-Z0-9_-]+)", stderr)
@@ -162,6 +174,11 @@ def classify_death(rc, stderr):
     if m:
         loc = re.search(r"(\S+\.(?:cpp|c|h)):(\d+)", stderr)
         return "ubsan", (loc.group(0) if loc else "?") + " " + m.group(1)[:80]
+    m = re.search(r"==\d+== (Invalid (?:read|write) of size \d+|Conditional jump or move depends on uninitialised value|Use of uninitialised value of size \d+|Invalid free|Mismatched free)", stderr)
+    if m:
+        frames = re.findall(r"(?:at|by) 0x[0-9A-F]+: (\S+) \(([^)]*)\)", stderr)
+        where = next((f for f, loc in frames if "libtfhe" in loc or ".cpp" in loc and "sim/" not in loc), frames[0][0] if frames else "?")
+        return "valgrind:%s" % re.sub(r" of size \d+", "", m.group(1)).replace(" ", "-").lower(), where
     m = re.search(r"WARNING: ThreadSanitizer: ([a-zA-Z -]+)", stderr)
     if m:
         frames = re.findall(r"#\d+ (\S+) (\S+)", stderr)
